@@ -54,7 +54,7 @@ func createPlugin(req *pluginpb.CodeGeneratorRequest) *protogen.Plugin {
 	opts := protogen.Options{}
 	plugin, err := opts.New(req)
 	if err != nil {
-		panic(err)
+		writeErrorResponse(err)
 	}
 	return plugin
 }
@@ -93,7 +93,7 @@ func createServiceGenerator(
 func renderService(generator *openapiv3.Generator) []byte {
 	output, renderErr := generator.Render()
 	if renderErr != nil {
-		panic(renderErr)
+		writeErrorResponse(renderErr)
 	}
 	return output
 }
@@ -114,6 +114,23 @@ func writeServiceFile(
 	if _, writeErr := generatedFile.Write(output); writeErr != nil {
 		panic(writeErr)
 	}
+}
+
+// writeErrorResponse reports a generation failure to protoc through the response's error
+// field (as the plugin protocol prescribes) instead of crashing, then exits.
+func writeErrorResponse(err error) {
+	resp := &pluginpb.CodeGeneratorResponse{
+		Error:             proto.String(err.Error()),
+		SupportedFeatures: proto.Uint64(uint64(pluginpb.CodeGeneratorResponse_FEATURE_PROTO3_OPTIONAL)),
+	}
+	respOutput, marshalErr := proto.Marshal(resp)
+	if marshalErr != nil {
+		panic(marshalErr)
+	}
+	if _, writeErr := os.Stdout.Write(respOutput); writeErr != nil {
+		panic(writeErr)
+	}
+	os.Exit(0)
 }
 
 func writeResponse(plugin *protogen.Plugin) {
